@@ -193,7 +193,7 @@ func execC09Inner(ctx context.Context, caseText string) string {
 			})
 		}
 		return c09Consume(ctx, s, func(r timeseries.TsRecord[string]) string {
-			return fmt.Sprintf("%d@%s", r.Timestamp.Unix(), r.Value)
+			return fmt.Sprintf("%d@%s", r.Timestamp.UnixNano(), r.Value)
 		})
 	case strings.HasPrefix(variant, "dsi:") || strings.HasPrefix(variant, "dsl:") || strings.HasPrefix(variant, "dsf:"):
 		var widths []int
@@ -261,7 +261,7 @@ func execC09Inner(ctx context.Context, caseText string) string {
 					cells[i] = fmt.Sprintf("?%T", c)
 				}
 			}
-			return fmt.Sprintf("%d@%s", r.Timestamp.Unix(), strings.Join(cells, ","))
+			return fmt.Sprintf("%d@%s", r.Timestamp.UnixNano(), strings.Join(cells, ","))
 		})
 	}
 	return "bad-case"
